@@ -1,6 +1,6 @@
 (* C12 — JSON encoding of expressions round-trips.  (leaf level and totality; see DESIGN 6/C12) *)
 Require Import Parser Render Decode Shape.
-Require Import RenderTotal RenderMarshal RenderNum DecodeLeaf TablesTie.
+Require Import RenderTotal RenderMarshal RenderNum DecodeLeaf TablesTie Cst Inferable JsonRoundTripB.
 From Coq Require Import List String Ascii ZArith.
 
 (* MarshalJSON returns (bytes or an error) on every tree whatsoever *)
@@ -22,6 +22,18 @@ Theorem C12_string_leaf_roundtrip : forall o : oracle,
   forall raw s : string, plain_text s = true -> unmarshal_literal o (JStr (String """"%char raw) s) = DOk (lit (VStr s)).
 Proof. exact leaf_string_roundtrip. Qed.
 
+(* the whole tree: Spec/Cst.v cst_e e is the JSON syntax tree of what MarshalJSON writes for e (compared with the implementation's
+   bytes on every case by the driver); Spec/Inferable.v ki_b is the executable form of "each leaf has the kind the decoder infers
+   from its text" for trees of the parser's output shape. For every such tree, decoding the encoder's output gives back the
+   tree itself. Hypotheses (facts about encoding/json, strconv and the library's textual boundary heuristic on the encoder's OWN
+   output; the third is checked per case by the correspondence): a JSON string's raw text starts with a double quote; ParseFloat
+   rejects a text that starts with one; looksLikeRangeBoundary says yes exactly on the encoder's boundary objects *)
+Theorem C12_decode_encode_roundtrip : forall (o : oracle) (o2 : oracle2),
+  (forall s, exists r, json_str o2 s = String """"%char r) -> (forall r, parse_float o (String """"%char r) = None) ->
+  (forall v, looks_like_boundary (cst_v o2 v) = is_bound v) ->
+  forall e, ki_b o o2 e = true -> decode o (cst_e o2 e) = DOk e.
+Proof. exact inferable_roundtrip. Qed.
+
 (* operator names: toString and fromString (generated from operator.go) are mutually inverse on the 19 operators, and the
    decoder's lookup is fromString *)
 Theorem C12_operator_names_roundtrip : forall op s, assoc_op op to_string = Some s -> assoc_str s from_string = Some op.
@@ -32,6 +44,7 @@ Theorem C12_decoder_uses_from_string : forall s, op_of_string s = match assoc_st
 Proof. exact op_of_string_tie. Qed.
 
 Print Assumptions C12_encode_returns.
+Print Assumptions C12_decode_encode_roundtrip.
 Print Assumptions C12_operator_names_roundtrip.
 Print Assumptions C12_operator_names_total.
 Print Assumptions C12_decoder_uses_from_string.
